@@ -20,6 +20,7 @@ type HarnessSpec struct {
 	Prop     string
 	Pkg      string         // import path suffix below the module root ("" = root package)
 	Func     string         // harness function name (ZZ_...)
+	Tag      string         // distinguishes several registrations of one function (e.g. "shape=2")
 	Tiers    string         // "quick", "thorough" or "" (both)
 	Unwind   int            // loop unwinding bound (unwinding assertion)
 	MaxPaths int            // path budget; hitting it makes the run incomplete
@@ -41,6 +42,13 @@ func (s HarnessSpec) pkgPath() string {
 		return modulePath
 	}
 	return modulePath + "/" + s.Pkg
+}
+
+func (s HarnessSpec) name() string {
+	if s.Tag != "" {
+		return s.Func + "[" + s.Tag + "]"
+	}
+	return s.Func
 }
 
 func (s HarnessSpec) pattern() string {
@@ -160,6 +168,7 @@ func runHarness(ld *Loaded, spec HarnessSpec, tier string, workers int, twin boo
 					inited: map[*ssa.Package]bool{}, funcs: funcs, stubs: stubs, unwind: unwind,
 					maxSteps: maxSteps, reached: reached, symvals: map[string]*Term{}, names: map[string]int{}, params: params, hpkg: spec.pkgPath()}
 				i.initConc(spec.POR)
+				i.cs.coarse = params["__coarse"] == 1
 				end := runPath(i, h)
 				i.killAll()
 				res.mu.Lock()
@@ -177,6 +186,9 @@ func runHarness(ld *Loaded, spec HarnessSpec, tier string, workers int, twin boo
 					}
 				}
 				res.Instrs += i.instrs
+				for k, n := range i.cs.kinds {
+					res.Forks["yield:"+k] += n
+				}
 				res.States += int64(i.cs.states)
 				res.Transitions += int64(i.cs.transitions)
 				for k, n := range funcs {
@@ -192,7 +204,7 @@ func runHarness(ld *Loaded, spec HarnessSpec, tier string, workers int, twin boo
 					res.Forks[k] += n
 				}
 				for _, v := range i.violations {
-					v.Harness = spec.Func
+					v.Harness = spec.name()
 					v.Vector = ex.vector()
 					v.Trace = i.traceStrings()
 					if len(res.Violations[v.sig()]) < 4 {
@@ -323,6 +335,13 @@ func panicMessage(v value) string {
 				return t.S
 			}
 			return t.String()
+		}
+		if pv, ok := itf.v.(*value); ok && pv != nil {
+			if st, ok := (*pv).(structure); ok && len(st) > 0 {
+				if t, ok := st[0].(*Term); ok && t.Const && t.Sort == SStr {
+					return t.S
+				}
+			}
 		}
 		if st, ok := itf.v.(structure); ok && len(st) > 0 {
 			if t, ok := st[0].(*Term); ok && t.Const && t.Sort == SStr {
@@ -514,7 +533,7 @@ func matchKnown(known []KnownFinding, prop, sig string) *KnownFinding {
 
 func printResult(r *HarnessResult, verbose bool) {
 	fmt.Printf("== %s: paths=%d ends=%v instrs=%d funcs=%d stubs=%d forks=%v queries=%d (sat %d unsat %d unknown %d) solver=%v wall=%v\n",
-		r.Spec.Func, r.Paths, r.Ends, r.Instrs, len(r.Funcs), len(r.Stubs), r.Forks, r.Queries, r.Sat, r.Unsat, r.Unknown,
+		r.Spec.name(), r.Paths, r.Ends, r.Instrs, len(r.Funcs), len(r.Stubs), r.Forks, r.Queries, r.Sat, r.Unsat, r.Unknown,
 		r.SolverTime.Round(time.Millisecond), r.Wall.Round(time.Millisecond))
 	for _, sig := range sortedKeys(r.Violations) {
 		v := r.Violations[sig][0]
@@ -574,12 +593,12 @@ func writeEvidence(o checkOpts, ld *Loaded, results []*HarnessResult, violations
 		}
 		for k, n := range r.Reached {
 			if strings.HasPrefix(k, "assert:") {
-				asserts[r.Spec.Func+"/"+strings.TrimPrefix(k, "assert:")] += n
+				asserts[r.Spec.name()+"/"+strings.TrimPrefix(k, "assert:")] += n
 			}
 		}
 		for _, s := range r.Samples {
 			if len(samples) < 8 {
-				samples = append(samples, map[string]any{"harness": r.Spec.Func, "decisions": s.Decisions, "end": s.End, "model": s.Model, "trace": s.Trace, "notes": s.Notes})
+				samples = append(samples, map[string]any{"harness": r.Spec.name(), "decisions": s.Decisions, "end": s.End, "model": s.Model, "trace": s.Trace, "notes": s.Notes})
 			}
 		}
 		p := map[string]int{}
@@ -595,8 +614,8 @@ func writeEvidence(o checkOpts, ld *Loaded, results []*HarnessResult, violations
 		if unw == 0 {
 			unw = 24
 		}
-		bounds[r.Spec.Func] = map[string]any{"unwind": unw, "params": p, "por_sleep_sets": r.Spec.POR, "note": r.Spec.Note}
-		harnesses = append(harnesses, map[string]any{"harness": r.Spec.Func, "paths": r.Paths, "ends": r.Ends, "ssa_instructions": r.Instrs,
+		bounds[r.Spec.name()] = map[string]any{"unwind": unw, "params": p, "por_sleep_sets": r.Spec.POR, "note": r.Spec.Note}
+		harnesses = append(harnesses, map[string]any{"harness": r.Spec.name(), "paths": r.Paths, "ends": r.Ends, "ssa_instructions": r.Instrs,
 			"queries": r.Queries, "solver_time_s": r.SolverTime.Seconds(), "wall_s": r.Wall.Seconds(), "incomplete": r.Incomplete,
 			"counterexamples": sortedKeys(r.Violations)})
 	}
@@ -724,7 +743,7 @@ func writeReplayFile(spec HarnessSpec, v Violation, output string) string {
 	os.MkdirAll(dir, 0o755)
 	name := fmt.Sprintf("%s_%s_%x.json", spec.Prop, spec.Func, hashString(v.sig()))
 	path := filepath.Join(dir, name)
-	b, _ := json.MarshalIndent(map[string]any{"property": spec.Prop, "harness": spec.Func, "pkg": spec.Pkg, "violation": v, "replay_output": output}, "", " ")
+	b, _ := json.MarshalIndent(map[string]any{"property": spec.Prop, "harness": spec.Func, "tag": spec.Tag, "pkg": spec.Pkg, "violation": v, "replay_output": output}, "", " ")
 	os.WriteFile(path, b, 0o644)
 	return path
 }
